@@ -174,10 +174,21 @@ def rule_dom(run):
                          'or containing both end points' % (colv, doms), where=ct.where(c))
     pts = [n for n in walk_no_nested(ct.node) if isinstance(n, ast.Assign) and norm(n.targets[0]) == 'pts' and isinstance(n.value, ast.Call)]
     if pts:
-        run.check(norm(pts[0].value) == 'line_polygon_intersections(poly, line)', 'mulgrid.column_track :: crossings of the column polygon with the line',
-                  'crossings computed as %s' % norm(pts[0].value), where=ct.where(pts[0]))
-    poly = [n for n in walk_no_nested(ct.node) if isinstance(n, ast.Assign) and norm(n.targets[0]) == 'poly']
-    if poly: run.check(norm(poly[0].value) == 'col.polygon', 'mulgrid.column_track :: polygon of that column', 'poly = %s' % norm(poly[0].value), where=ct.where(poly[0]))
+        # the polygon argument, with a local alias (poly = col.polygon) resolved
+        k_ = 'mulgrid.column_track :: crossings of the column polygon with the line'
+        c_ = pts[0].value
+        arg0 = c_.args[0] if c_.args else None
+        if isinstance(arg0, ast.Name):
+            al = [n.value for n in walk_no_nested(ct.node) if isinstance(n, ast.Assign) and norm(n.targets[0]) == arg0.id]
+            arg0 = al[0] if len(al) == 1 else arg0
+        line_ok = len(c_.args) == 2 and isinstance(c_.args[1], ast.Name) and c_.args[1].id == ct.params[1]
+        if call_name(c_) == 'line_polygon_intersections' and isinstance(arg0, ast.Attribute) and arg0.attr == 'polygon' and \
+           isinstance(arg0.value, ast.Name) and line_ok:
+            loopvars = [n.target.id for n in walk_no_nested(ct.node) if isinstance(n, ast.For) and isinstance(n.target, ast.Name) and
+                        any(x is pts[0] for x in ast.walk(n))]
+            if arg0.value.id in loopvars: run.ok(k_, norm(c_), where=ct.where(pts[0]))
+            else: run.violated(k_, 'crossings are computed with the polygon of `%s`, which is not the column being visited (%s)' % (arg0.value.id, loopvars), where=ct.where(pts[0]))
+        else: run.unknown(k_, 'crossings computed as %s' % norm(c_), where=ct.where(pts[0]))
     for v, end in (('start_col', 'line[0]'), ('end_col', 'line[1]')):
         a = [n for n in walk_no_nested(ct.node) if isinstance(n, ast.Assign) and norm(n.targets[0]) == v and norm(n.value) == 'col']
         key = 'mulgrid.column_track :: %s contains %s' % (v, end)
@@ -219,8 +230,16 @@ def rule_halfopen(run):
     # parity
     rets = [r for r in walk_no_nested(fi.node) if isinstance(r, ast.Return)]
     if len(rets) == 1:
-        r = compare(rets[0].value, 'numcrossings % 2')
-        run.check(r == 'equal', 'geometry.in_polygon :: odd number of crossings', 'returns %s' % norm(rets[0].value), where=fi.where(rets[0]))
+        # the crossing counter is whatever is incremented by one inside the edge loop (role, not name)
+        counters = sorted(set(n.target.id for n in ast.walk(fi.node) if isinstance(n, ast.AugAssign) and isinstance(n.op, ast.Add) and
+                              isinstance(n.target, ast.Name) and isinstance(n.value, ast.Constant) and n.value.value == 1))
+        k = 'geometry.in_polygon :: odd number of crossings'
+        if len(counters) != 1: run.unknown(k, 'crossing counter not identified (%s)' % counters, where=fi.where(rets[0]))
+        else:
+            r = compare(rets[0].value, '%s %% 2' % counters[0], alternatives=('%s %% 2 == 1' % counters[0], '%s %% 2 != 0' % counters[0], 'bool(%s %% 2)' % counters[0]))
+            if r == 'equal': run.ok(k, where=fi.where(rets[0]))
+            elif r == 'different': run.violated(k, 'returns %s' % norm(rets[0].value), where=fi.where(rets[0]))
+            else: run.unknown(k, 'returns %s' % norm(rets[0].value), where=fi.where(rets[0]))
     x = [n for n in ast.walk(fi.node) if isinstance(n, ast.Assign) and norm(n.targets[0]) == 'x']
     if x:
         r = compare(x[0].value, 'p1[0] + (v[1] - p1[1]) * d[0] / d[1]')
